@@ -165,6 +165,39 @@ func init() {
 	})
 }
 
+func init() {
+	// strcase.ToCamel on a snake_case identifier (lower-case letters, digits, underscores): every word capitalised and
+	// joined, as the library does for such input. Other inputs are not modelled.
+	reg("github.com/iancoleman/strcase.ToCamel", func(ex *Exec, fr *frame, pos token.Pos, args []value) value {
+		s := ex.concretizeStr(args[0].(*Str))
+		c, ok := s.concrete()
+		if !ok {
+			panic(ex.unsupported("strcase.ToCamel of a symbolic string"))
+		}
+		out := make([]byte, 0, len(c))
+		up := true
+		for i := 0; i < len(c); i++ {
+			ch := c[i]
+			switch {
+			case ch == '_':
+				up = true
+			case ch >= 'a' && ch <= 'z':
+				if up {
+					ch -= 32
+				}
+				up = false
+				out = append(out, ch)
+			case ch >= '0' && ch <= '9':
+				up = true // the library capitalises the letter after a digit
+				out = append(out, ch)
+			default:
+				panic(ex.unsupported("strcase.ToCamel of something that is not a snake_case identifier"))
+			}
+		}
+		return ex.strConst(string(out))
+	})
+}
+
 // concretizeStr makes every byte of s concrete on this path (forking when several values are feasible).
 func (ex *Exec) concretizeStr(s *Str) *Str {
 	ex.needBytes(s)
